@@ -176,6 +176,13 @@ class TemplateGen:
         self._op_nest = getattr(self, '_op_nest', 0)
 
         def inner(n):
+            self._scope = getattr(self, '_scope', 0) + 1       # everything generated here is under this operator
+            try:
+                return inner_items(n)
+            finally:
+                self._scope -= 1
+
+        def inner_items(n):
             out = []
             for _ in range(n):
                 q = r.random()
@@ -190,7 +197,7 @@ class TemplateGen:
                 else:
                     out.append(self.elem())
             return out
-        if k == '201wide' and getattr(self, '_op_nest', 0) > 0:
+        if k == '201wide' and (getattr(self, '_op_nest', 0) > 0 or getattr(self, '_scope', 0) > 0):
             k = '201'            # not under another modifier: the field must stay within 64 bits and scale 0
         if k == '201wide':
             # a scale-0 element widened beyond 53 bits: integers a double cannot hold
